@@ -483,6 +483,16 @@ def rule_fail_all(ctx):
     if ok:
         en = exc_defs[0].ast.id
         ctx.ob(R, ff, fa[0], unparse(arg_of(fa[0].ast, 0)) == en and unparse(arg_of(fe[0].ast, 0)) == en, "the task's exception is not what is propagated", text="exc-flow")
+        # an exception raised inside a done-callback goes to the loop's exception handler and nowhere else: whatever the callback calls
+        # before failing the batches can silently prevent it (TransactionManager.fatal_error dereferences the transaction waiter, which
+        # an idempotent, non-transactional producer never has).  Only the task's own inspection methods and logging may come first.
+        tp_ = ff.params()[1]
+        before = [x for x in cf.nodes if x.kind == "call" and x is not fa[0] and cf.path_exists(x, fa[0], exc=False)]
+        harmless = lambda x: (isinstance(x.ast.func, ast.Attribute) and ((unparse(x.ast.func.value) == tp_ and x.ast.func.attr in ("cancelled", "exception", "done"))
+                                                                         or unparse(x.ast.func.value) in ("log", "logger")))
+        badc = [x for x in before if not harmless(x)]
+        ctx.ob(R, ff, fa[0], not badc, f"`{badc[0].text()[5:60] if badc else ''}` runs before the batches are failed: if it raises, every delivery future stays pending and "
+                                       "nobody is told (exceptions of a done-callback are only logged by the loop)", text="batches-failed-first")
         from ..rulekit import none_tests
         tt = none_tests(cf, en)
         ctx.ob(R, ff, fa[0], any(cf.dominated_by_branch(t, lnn, fa[0]) for t, _ln, lnn in tt) and
